@@ -1,8 +1,9 @@
 SPECIFICATION Spec
-CONSTANTS MaxLeaves = 4
+CONSTANTS MaxLeaves = 3
   MaxEnv = 4
   MaxList = 3
   Depth = 3
   Mutant = "none"
+  Family = "all"
 INVARIANTS InvResult InvOverlay InvEnvAcc InvNaming InvTypes
 CHECK_DEADLOCK FALSE
